@@ -107,16 +107,16 @@ func (l *Lexer) Next() (token.Token, error) {
 	l.skipTabsAndSpaces()
 	l.tokenStartPosition = l.Position()
 
+	// multi-line comments: any number of them may precede the token
+	for l.ch == rune('/') && l.peekChar() == rune('*') {
+		l.skipMultiLineComment()
+	}
+
 	// skip single-line comments
 	if l.ch == rune('#') ||
 		(l.ch == rune('/') && l.peekChar() == rune('/')) {
 		l.skipComment()
 		return l.Next()
-	}
-
-	// multi-line comments
-	if l.ch == rune('/') && l.peekChar() == rune('*') {
-		l.skipMultiLineComment()
 	}
 
 	if l.prevToken.Type == token.EOF {
